@@ -324,7 +324,7 @@ type scenario struct {
 
 func compileObs(v *libvore.Vore, err error) string {
 	if err != nil {
-		return "error: " + firstLine(err.Error())
+		return "error: " + strings.ReplaceAll(err.Error(), "\n", " | ")
 	}
 	k, _ := bytecodeKey(v)
 	var parts []string
@@ -355,6 +355,11 @@ func runThread(v *libvore.Vore, text string) func() string {
 }
 
 const (
+	srcProcA = "set f to transform set v to 1 set w to 'q' return v * 2 end\nreplace all 'a' with f"
+	srcProcB = "set g to transform return head v + tail w end\nset p to pattern 'a' begin set k to matchLength return k == 1 end\nreplace all p with g"
+	srcBadA  = "find all 'abc"
+	srcBadB  = "find all 'a' \"xyz"
+	srcBadC  = "find all 'a' ~"
 	srcGroupsA = "find all @/(a)(b)?/"
 	srcGroupsB = "find all @/((a)|(1))( )?/ find all @/(b)\\1/"
 	srcPlain   = "find all 'a' maybe 'b'"
@@ -390,6 +395,8 @@ func c19Scenarios() []scenario {
 		compileOnly("S1 Compile(groups) || Compile(groups)", srcGroupsA, srcGroupsB),
 		compileOnly("S2 Compile(groups) || Compile(no groups)", srcGroupsB, srcPlain),
 		compileOnly("S6 Compile || Compile || Compile", srcGroupsA, srcGroupsB, srcGroupsA),
+		compileOnly("S7 Compile(transform with assignments) || Compile(transform/predicate reading unset names)", srcProcA, srcProcB),
+		compileOnly("S8 Compile(lex error) || Compile(lex error) || Compile(lex error)", srcBadA, srcBadB, srcBadC),
 		{name: "S3 Compile || Run(shared program)", setup: shared, threads: func(sh any) ([]func() string, func() []string) {
 			v := sh.(*libvore.Vore)
 			k0, _ := bytecodeKey(v)
@@ -432,7 +439,7 @@ func runC19(c *Ctx) {
 		}
 		for _, sc := range scs {
 			sc, bound := sc, bound
-			if bound >= 3 && !strings.HasPrefix(sc.name, "S1") && !strings.HasPrefix(sc.name, "S2") && !strings.HasPrefix(sc.name, "S6") {
+			if bound >= 3 && !strings.HasPrefix(sc.name, "S1") && !strings.HasPrefix(sc.name, "S2") && !strings.HasPrefix(sc.name, "S6") && !strings.HasPrefix(sc.name, "S7") && !strings.HasPrefix(sc.name, "S8") {
 				continue // 3 preemptions only for the Compile-only scenarios (those with Run have a point per VM instruction)
 			}
 			if !c.Unit(func() string { return fmt.Sprintf("%s, <= %d preemptions", sc.name, bound) }) {
@@ -473,6 +480,12 @@ func racePass(c *Ctx) {
 			}
 		}
 		c.Violation("RACE-DETECTOR "+site, "free-running calls under the Go race detector: "+strings.ReplaceAll(txt, "\n", " | "), map[string]any{"kind": "racepass", "report": txt})
+	} else if err != nil && strings.Contains(string(out), "fatal error: concurrent map") {
+		txt := string(out)
+		if len(txt) > 1200 {
+			txt = txt[:1200]
+		}
+		c.Violation("RACE-DETECTOR concurrent map access", "free-running calls crash the runtime: "+strings.ReplaceAll(txt, "\n", " | "), map[string]any{"kind": "racepass", "report": txt})
 	} else if err != nil {
 		c.Note(fmt.Sprintf("race-detector pass ended with %v: %.200s", err, out))
 	}
